@@ -108,20 +108,38 @@ def variable_cases(dbx, d, rng, n):
             if t in refdb.UNSUPPORTED_TYPES:
                 break
             if t == "STRING_LAU":
-                mode = c % 6
-                n_chars = (0, 1, rng.randint(2, 12), rng.randint(2, 12), rng.randint(13, 30), rng.randint(1, 8))[mode]
-                ascii_ = mode != 3 and mode != 5
-                s = gen.rand_text(rng, n_chars, unicode_=not ascii_)
-                b = gen.lau_bytes(s, ascii_)
-                texts[f.order] = s
+                mode = c % 8
+                if mode >= 6:
+                    # text that is not valid in the encoding the control byte announces (a Latin-1 letter in an
+                    # 'ASCII' string, a UTF-16 body cut in the middle of a unit or holding a lone surrogate): the
+                    # string's content is not judged, but the message must still come back
+                    base_txt = gen.rand_text(rng, rng.randint(1, 9))
+                    if mode == 6:
+                        body = bytearray(base_txt.encode())
+                        body.insert(rng.randrange(len(body) + 1), rng.choice((0xE9, 0xFF, 0x80, 0xC3)))
+                        b = bytes([len(body) + 2, 1]) + bytes(body)
+                    else:
+                        body = base_txt.encode("utf-16-le") + rng.choice((b"\x41", b"\x00\xd8", b"\x00\xdc\x41"))
+                        b = bytes([len(body) + 2, 0]) + body
+                else:
+                    n_chars = (0, 1, rng.randint(2, 12), rng.randint(2, 12), rng.randint(13, 30), rng.randint(1, 8))[mode]
+                    ascii_ = mode != 3 and mode != 5
+                    s = gen.rand_text(rng, n_chars, unicode_=not ascii_)
+                    b = gen.lau_bytes(s, ascii_)
+                    texts[f.order] = s
                 p |= int.from_bytes(b, "little") << run
                 run += 8 * len(b)
             elif t == "STRING_LZ":
-                mode = c % 5
-                n_chars = (0, 1, rng.randint(2, 12), rng.randint(13, 30), rng.randint(1, 8))[mode]
-                s = gen.rand_text(rng, n_chars, unicode_=(mode == 4))
-                b = gen.lz_bytes(s)
-                texts[f.order] = s
+                mode = c % 6
+                if mode == 5:
+                    body = bytearray(gen.rand_text(rng, rng.randint(1, 9)).encode())
+                    body.insert(rng.randrange(len(body) + 1), rng.choice((0xE9, 0xFF, 0x80, 0xC3)))
+                    b = bytes([len(body)]) + bytes(body) + b"\x00"
+                else:
+                    n_chars = (0, 1, rng.randint(2, 12), rng.randint(13, 30), rng.randint(1, 8))[mode]
+                    s = gen.rand_text(rng, n_chars, unicode_=(mode == 4))
+                    b = gen.lz_bytes(s)
+                    texts[f.order] = s
                 p |= int.from_bytes(b, "little") << run
                 run += 8 * len(b)
             elif f.bits is None and f.length_field is not None:
@@ -144,7 +162,7 @@ def variable_cases(dbx, d, rng, n):
         if not ok:
             continue
         nb = max((run + 7) // 8, 1)
-        yield (f"variable:{c % 6}", p, nb, texts)
+        yield (f"variable:{c % 8}", p, nb, texts)
 
 
 # ---------------------------------------------------------------------------
